@@ -12,6 +12,12 @@ def parseObs (tok : String) : Option Obs :=
            figures := if figs == "" then [] else figs.splitOn "," }
   | _ => none
 
+def parseBufObs (tok : String) : Option BufObs :=
+  match tok.splitOn "|" with
+  | [s0, d0, s1, d1] => do
+    some { sizeBefore := (← parseNat? s0), digestBefore := d0, sizeAfter := (← parseNat? s1), digestAfter := d1 }
+  | _ => none
+
 /-- `detclass <obs> <obs> ...` → `1` if all observations of the class agree, else `0 <index of the first that differs from #0>`;
     `emitorder <key> ...` → the positions (in iteration order) in which the writer emits elements with these sort keys -/
 def handle : List String → Option String
@@ -21,6 +27,14 @@ def handle : List String → Option String
     | some l =>
       if agree l then some "1"
       else some ("0 " ++ toString ((firstDisagreement l).getD 0))
+  | "bufkept" :: toks =>
+    -- `bufkept <size|sha256|size|sha256> ...` (caller's buffer before / after each call) → `1` if no call modified its buffer,
+    -- else `0 <index of the first call that did>`
+    match toks.mapM parseBufObs with
+    | none => some "err:value"
+    | some l =>
+      if inputKept l then some "1"
+      else some ("0 " ++ toString ((firstModified l).getD 0))
   | "emitorder" :: toks =>
     match parseNats toks with
     | none => some "err:value"
